@@ -12,7 +12,7 @@ MANIFEST = {
             'deepcopy (and by a dill round trip on a sub-family; thorough: all) after 0, 1 or 2 preceding operations; then every interleaving of up to 2 operations per object (thorough 3) '
             'from {plain calculation, two different overrides, compiled call, re-finish} is executed on the pair. Every result must equal what a freshly built model returns for the '
             'same operation (so the copy is equivalent and neither object can see the other\'s operations). The same is done for compiled functions (ExcelModel.compile and '
-            'Parser.compile) and their copies with all argument-tuple interleavings. Further models: constant array formulas entered in ranges larger than their result, and a sparse range read through the dispatcher\'s self reference. An original and two copies (deepcopy/dill) are each extended with new cells through from_dict (every assignment of 3 extensions to the 3 objects, every order) and must equal a fresh model extended the same way.',
+            'Parser.compile) and their copies with all argument-tuple interleavings. Further models: constant array formulas entered in ranges larger than their result, and a sparse range read through the dispatcher\'s self reference. An original and two copies (deepcopy/dill) are each extended with new cells through from_dict (every assignment of 3 extensions to the 3 objects, every order) and must equal a fresh model extended the same way.' ' Later additions: objects extended after the copy, write() sequences on original and copy, overrides of unpopulated cells of a sparse range, compiled outputs that do not depend on the input, a lookup / criteria model (dill after the first evaluation).',
     'note': 'Trusted: the fresh-model result as reference (history independence of a single model is C07). Shared mutable objects are reported in the evidence but judged only through results.',
 }
 RULE = 'case = (model, copy kind, preceding ops, interleaving); non-trivial = both objects operated; distinct = case key'
